@@ -609,9 +609,22 @@ class Resolver:
         for v in list(defs):
             if isinstance(v, ast.IfExp):
                 defs += [v.body, v.orelse]
+        def lambda_targets(lam):
+            # calling the lambda runs its body: what the body calls is what the call can reach
+            for c in ast.walk(lam.body):
+                if isinstance(c, ast.Call):
+                    try:
+                        r = self.resolve_call(c, fi, count=False)
+                    except Exception:
+                        continue
+                    if r.kind in ('repo', 'dyn', 'ctor'):
+                        for t_ in r.targets:
+                            if t_ not in targets:
+                                targets.append(t_)
         for v in defs:
             if isinstance(v, ast.Lambda):
                 ok = True
+                lambda_targets(v)
                 continue
             # handler = self.process_x  (one of several branches of a dispatch chain)
             if isinstance(v, ast.Attribute) and isinstance(v.value, ast.Name) and v.value.id == fi.self_name and fi.cls is not None:
@@ -636,6 +649,9 @@ class Resolver:
                                     if mm is not None:
                                         targets.append(mm)
                                         ok = True
+                                elif isinstance(x, ast.Lambda):
+                                    lambda_targets(x)
+                                    ok = True
                 vals = self._dict_values(d, fi)
                 if vals:
                     return None   # class object: handled by attribute path
